@@ -228,4 +228,105 @@ theorem apply_comp_composite (X A B : ND K) {o : List ℕ} (hX : X.shape = o ++ 
   rw [gl i hi, gr i hi, gBX i hi, gAB [] (by simp)]
   exact apply_comp_row _ _ _
 
+/-! ## added after the model-mutant round: the dual block of `Transformation.apply` on an OBJECT
+(the unit-level theorems above say what the dual data should be multiplied by; this says that the
+model of `Transformation.apply` does it) -/
+
+/-- `T @ obj` for an object carrying dual data (`ConvexPolygon`): the dual block of the result is,
+row by row, the old functional times the inverse transpose of `T`'s matrix; composite shape kept -/
+theorem apply_obj_dual {X Y : Obj K} {A AinvT d : ND K} {o : List ℕ}
+    (hAi : AinvT.shape = [n, n])
+    (hinv : matAt AinvT n n [] = ((matAt A n n [])⁻¹)ᵀ)
+    (h : X.apply A AinvT .elementwise = .ok Y) (hd : X.dual = some d) (hds : d.shape = o ++ [n]) :
+    ∃ d', Y.dual = some d' ∧ d'.shape = d.shape ∧
+      ∀ i, Valid o i → rowAt d' n i = actRow ((matAt A n n [])⁻¹)ᵀ (rowAt d n i) := by
+  obtain ⟨c, hc, hcs, hcg⟩ := apply_composite_row d AinvT hds hAi
+  unfold Obj.apply at h
+  split at h
+  · cases h
+  · split at h
+    · cases h
+    · split at h
+      · cases h
+      · rename_i d' hd'
+        cases h
+        rw [hd] at hd'
+        simp only [hc, Except.map] at hd'
+        cases hd'
+        exact ⟨c, rfl, hcs, fun i hi => by rw [hcg i hi, hinv]⟩
+
+/-- hence incidence is kept at every index of a composite: the image functional evaluated on the
+image of any point equals the old functional on the old point -/
+theorem apply_obj_incidence {X Y : Obj K} {A AinvT d : ND K} {o : List ℕ}
+    (hAi : AinvT.shape = [n, n])
+    (hinv : matAt AinvT n n [] = ((matAt A n n [])⁻¹)ᵀ) (hdet : (matAt A n n []).det ≠ 0)
+    (h : X.apply A AinvT .elementwise = .ok Y) (hd : X.dual = some d) (hds : d.shape = o ++ [n]) :
+    ∃ d', Y.dual = some d' ∧
+      ∀ i, Valid o i → ∀ w : Fin n → K, rowAt d' n i ⬝ᵥ actRow (matAt A n n []) w = rowAt d n i ⬝ᵥ w := by
+  obtain ⟨d', hY, -, hg⟩ := apply_obj_dual hAi hinv h hd hds
+  exact ⟨d', hY, fun i hi w => by rw [hg i hi]; exact dual_incidence _ hdet _ _⟩
+
+/-! ## added after the model-mutant round: the formula of `Segment._compute_aux_data` in the model the
+C03/C04/C11 theorems speak about (`GT.Act.segmentIdeal`) — the two stored rows ARE the null points of
+the line (so the quadratic's coefficients matter), and they are the `+` and the `−` root in this order -/
+
+/-- both derived rows of a segment are null vectors of the form (`r` a square root of the discriminant) -/
+theorem segmentIdeal_null {J : Matrix (Fin n) (Fin n) K} (hJ : Jᵀ = J) (r : K → K)
+    (X : Matrix (Fin 2) (Fin n) K) (h2 : (2 : K) ≠ 0) (ha : (segQuad J X).1 ≠ 0)
+    (hr : r ((segQuad J X).2.1 * (segQuad J X).2.1 - 4 * (segQuad J X).1 * (segQuad J X).2.2) ^ 2 =
+      (segQuad J X).2.1 * (segQuad J X).2.1 - 4 * (segQuad J X).1 * (segQuad J X).2.2)
+    (i : Fin 2) : bil J (segmentIdeal J r X i) (segmentIdeal J r X i) = 0 := by
+  have hsymm : bil J (X 1) (X 0) = bil J (X 0) (X 1) := by
+    unfold bil
+    rw [Matrix.dotProduct_mulVec, ← Matrix.mulVec_transpose, hJ, dotProduct_comm]
+  have key : ∀ μ : K, bil J (fun j => μ * X 0 j + (1 - μ) * X 1 j) (fun j => μ * X 0 j + (1 - μ) * X 1 j) =
+      (segQuad J X).1 * μ ^ 2 + (segQuad J X).2.1 * μ + (segQuad J X).2.2 := by
+    intro μ
+    have hv : (fun j => μ * X 0 j + (1 - μ) * X 1 j) = μ • X 0 + (1 - μ) • X 1 := by
+      ext j; simp
+    rw [hv]
+    have e : bil J (μ • X 0 + (1 - μ) • X 1) (μ • X 0 + (1 - μ) • X 1) =
+        μ * μ * bil J (X 0) (X 0) + μ * (1 - μ) * bil J (X 0) (X 1) + (1 - μ) * μ * bil J (X 1) (X 0)
+          + (1 - μ) * (1 - μ) * bil J (X 1) (X 1) := by
+      simp only [bil, Matrix.mulVec_add, Matrix.mulVec_smul, dotProduct_add, add_dotProduct,
+        smul_dotProduct, dotProduct_smul, smul_eq_mul]
+      ring
+    rw [e, hsymm]
+    simp only [segQuad]
+    ring
+  have alg : ∀ a b c s : K, a ≠ 0 → s ^ 2 = b * b - 4 * a * c →
+      a * ((-b + s) / (2 * a)) ^ 2 + b * ((-b + s) / (2 * a)) + c = 0 ∧
+      a * ((-b - s) / (2 * a)) ^ 2 + b * ((-b - s) / (2 * a)) + c = 0 := by
+    intro a b c s ha hs
+    have h4 : (4 : K) ≠ 0 := by
+      have : (4 : K) = 2 * 2 := by norm_num
+      rw [this]; exact mul_ne_zero h2 h2
+    constructor
+    · have h : a * ((-b + s) / (2 * a)) ^ 2 + b * ((-b + s) / (2 * a)) + c =
+          (s ^ 2 - (b * b - 4 * a * c)) / (4 * a) := by
+        field_simp
+        ring
+      rw [h, hs, sub_self, zero_div]
+    · have h : a * ((-b - s) / (2 * a)) ^ 2 + b * ((-b - s) / (2 * a)) + c =
+          (s ^ 2 - (b * b - 4 * a * c)) / (4 * a) := by
+        field_simp
+        ring
+      rw [h, hs, sub_self, zero_div]
+  fin_cases i
+  · exact (key _).trans (alg _ _ _ _ ha hr).1
+  · exact (key _).trans (alg _ _ _ _ ha hr).2
+
+/-- row 0 is the `+` root and row 1 the `−` root: they differ by `√disc / a` times the chord -/
+theorem segmentIdeal_diff (J : Matrix (Fin n) (Fin n) K) (r : K → K)
+    (X : Matrix (Fin 2) (Fin n) K) (h2 : (2 : K) ≠ 0) (ha : (segQuad J X).1 ≠ 0) (j : Fin n) :
+    segmentIdeal J r X 0 j - segmentIdeal J r X 1 j =
+      r ((segQuad J X).2.1 * (segQuad J X).2.1 - 4 * (segQuad J X).1 * (segQuad J X).2.2) / (segQuad J X).1 *
+        (X 0 j - X 1 j) := by
+  have alg : ∀ a b s x y : K, a ≠ 0 →
+      ((-b + s) / (2 * a) * x + (1 - (-b + s) / (2 * a)) * y) -
+        ((-b - s) / (2 * a) * x + (1 - (-b - s) / (2 * a)) * y) = s / a * (x - y) := by
+    intro a b s x y ha
+    field_simp
+    ring
+  exact alg _ _ _ _ _ ha
 end GT.C03
